@@ -135,6 +135,7 @@ class Recorder:
         self.shared = (assigned_attrs() | {"_data"}) - BENIGN_ATTRS
         self.enabled = True
         self.objnames = {}
+        self.depth = {}  # logical thread -> how many suspend-counter contexts it has entered itself
 
     def me(self):
         return self.names.get(threading.get_ident())
@@ -154,13 +155,40 @@ class Recorder:
             return
         if self.baton is not None:
             self.baton.step(t)
-        self.events.setdefault(t, []).append({"kind": kind, "acc": tuple(accesses), "where": where, "lock": lock})
+        self.events.setdefault(t, []).append({"kind": kind, "acc": tuple(accesses), "where": where, "lock": lock, "win": self.window(t)})
+
+    def window(self, t):
+        """(this thread holds the suspend counter, name of the function the innermost
+        _load frame is calling) -- where in a load the thread is, used to tell a known
+        preemption window from a new one."""
+        raised = self.depth.get(t, 0) > 0
+        callee = None
+        try:
+            f = sys._getframe(2)
+            below = None
+            while f is not None:
+                if f.f_code.co_name == "_load" and f.f_code.co_filename.startswith(LIB_ROOT):
+                    callee = below.f_code.co_name if below is not None else "_load"
+                    break
+                if f.f_code.co_filename.startswith(LIB_ROOT):
+                    below = f
+                f = f.f_back
+        except Exception:
+            callee = "?"
+        return (raised, callee)
 
     # -- line tracer -----------------------------------------------------------
     def tracer(self, frame, event, arg):
         fn = frame.f_code.co_filename
         if not fn.startswith(LIB_ROOT):
             return None
+        name = frame.f_code.co_name
+        if event == "call" and name in ("__enter__", "__exit__"):
+            so = frame.f_locals.get("self")
+            if so is not None and str(self.objnames.get(id(so), "")).startswith("suspend:"):
+                t = self.me()
+                if t is not None:
+                    self.depth[t] = self.depth.get(t, 0) + (1 if name == "__enter__" else -1)
         return self._local
 
     def _local(self, frame, event, arg):
